@@ -126,7 +126,7 @@ func vRecordStream(k, maxBody int) []byte {
 func verifC08ReadArmed() {
 	k, body := 2, 3
 	if vTier() > 0 {
-		k, body = 3, 3
+		k, body = 2, 5
 	}
 	in := vRecordStream(k, body)
 	tr := newVTransport(in)
